@@ -71,6 +71,7 @@ def real_outcome(data):
         if ALLOC and out["loop"].endswith(":__init__"):
             # the timer fired inside the constructor's catch-all, right after a MemoryError: name the stage that allocated
             out["loop"] = ALLOC[0]["loop"]
+            out["fmt"] = ALLOC[0]["fmt"]      # … and the format that was being parsed then, not the one probed when the timer fired
     except Exception as e:
         out = dict(exn=R.exn_name(e), **frames(e))
     out["t"] = time.time() - t0
